@@ -61,7 +61,10 @@ func (t1 *Taskfile) Merge(t2 *Taskfile, include *Include) error {
 	}
 	t1.Vars.Merge(t2.Vars, include)
 	t1.Env.Merge(t2.Env, include)
-	return t1.Tasks.Merge(t2.Tasks, include, t1.Vars)
+	// The included tasks remember the variables of the Taskfile they come from
+	// (t2), not the merged variables of the including Taskfile: those are the
+	// global variables, which rank below the vars of the include statement.
+	return t1.Tasks.Merge(t2.Tasks, include, t2.Vars)
 }
 
 func (tf *Taskfile) UnmarshalYAML(node *yaml.Node) error {
